@@ -17,7 +17,7 @@ import (
 
 const (
 	property = "C06"
-	rule     = "random DB programs (writes, flushes, automatic/seek/manual compactions on sub-ranges, trivial moves, transaction commits, reopen) x option lattice x 4 comparers; after EVERY installed version (commit hook) every live table is re-read and the C06 conditions are checked: file exists with recorded size, strictly ordered, recorded smallest/largest = first/last, level 0 newest first, deeper levels ordered and disjoint, shallower newer than deeper per user key; for EVERY table compaction the inputs must be closed on the version it was picked on (every next-level table overlapping the user-key hull of the source inputs is an input; at level 0 every level-0 table overlapping it too); non-trivial = a version with >=3 populated levels was installed"
+	rule     = "random DB programs (writes, flushes, automatic/seek/manual compactions on sub-ranges, trivial moves, transaction commits, reopen) x option lattice x 4 comparers; after EVERY installed version (commit hook) every live table is re-read and the C06 conditions are checked: file exists with recorded size, strictly ordered, recorded smallest/largest = first/last, level 0 newest first, deeper levels ordered and disjoint, shallower newer than deeper per user key; for EVERY table compaction the inputs must be closed on the version it was picked on (every next-level table overlapping the user-key hull of the source inputs is an input; at level 0 every level-0 table overlapping it too); non-trivial = a version with >=3 populated levels was installed; plus twin scenarios (writes, reopen, range compactions; run fault-free and with transient table faults armed before each range compaction; table contents per level, cuts and a full scan must agree; the builder of a whole-level compaction driven with and without faults must write the same tables) - a twin is non-trivial when an injected fault fired and the final version has >=2 levels"
 	header   = "From GL Require Import Corr.C06Run."
 	checkWf  = true
 )
@@ -195,7 +195,8 @@ func main() {
 			}
 		}()
 	}
-	for i := 0; i < ntwins; i++ {
+	for i := 0; i < ntwins && atomic.LoadInt32(&nTwinFail) < 4; i++ {
+		// a change that makes compactions retry for ever costs a watchdog period per scenario: four failures are enough
 		tjobs <- dbh.TwinSpec{TwinSeed: troot.Uint64() >> 1}
 	}
 	close(tjobs)
